@@ -72,6 +72,7 @@ func (c *Ctx) errorSpec() TaintSpec {
 	evalE := c.Fn("eval", "State.Eval")
 	errTag := c.tagConst("ERROR")
 	objT := c.TypeNamed("object", "Object")
+	errT := c.TypeNamed("object", "Error")
 	return TaintSpec{
 		Name: "untested evaluation result",
 		Source: func(v ssa.Value) bool {
@@ -82,9 +83,77 @@ func (c *Ctx) errorSpec() TaintSpec {
 		StorageStruct: base.StorageStruct,
 		Carrier:       func(t types.Type) bool { return types.Identical(t, objT) },
 		RawSink:       base.RawSink,
+		// the callee is told by a boolean argument whether the value is an error (isError := v.Type() == ERROR
+		// computed by the caller) and touches the value as an Object only where that is false
+		CleanCall: func(call ssa.CallInstruction, callee *ssa.Function, i int) bool {
+			args := call.Common().Args
+			if len(args) != len(callee.Params) {
+				return false
+			}
+			p := callee.Params[i]
+			for j, bp := range callee.Params {
+				if b, ok := bp.Type().Underlying().(*types.Basic); !ok || b.Kind() != types.Bool {
+					continue
+				}
+				k, op, ok := c.tagTest(args[j], args[i])
+				if !ok || k != errTag {
+					continue
+				}
+				// edge on which the value is no error: the false one of `== ERROR`, the true one of `!= ERROR`
+				cleanEdge := 1
+				if op == token.NEQ {
+					cleanEdge = 0
+				}
+				holds := func(conds []ctrlCond) bool {
+					for _, cc := range conds {
+						if cc.Cond == ssa.Value(bp) && cc.Edge == cleanEdge {
+							return true
+						}
+					}
+					return false
+				}
+				good := true
+				for _, ref := range *p.Referrers() {
+					switch x := ref.(type) {
+					case *ssa.DebugRef:
+					case *ssa.TypeAssert:
+						if !types.Identical(x.AssertedType, errT) && !holds(controlling(x.Block())) {
+							good = false
+						}
+					case *ssa.Phi:
+						for e, ev := range x.Edges {
+							if ev == ssa.Value(p) && !holds(edgeConds(x.Block().Preds[e], x.Block())) {
+								good = false
+							}
+						}
+					default:
+						if !holds(controlling(ref.Block())) {
+							good = false
+						}
+					}
+				}
+				if good {
+					return true
+				}
+			}
+			return false
+		},
 		CleanAt: func(v ssa.Value, use ssa.Instruction) bool {
 			for i := 0; i < 3; i++ {
 				if c.tagExcludedAt(v, errTag, use.Block()) {
+					return true
+				}
+				// a merge whose every incoming value is no error on its own edge (the error replaced by
+				// something made from it on the other one: catch)
+				if phi, ok := v.(*ssa.Phi); ok {
+					for e, ev := range phi.Edges {
+						if mi, ok := ev.(*ssa.MakeInterface); ok && !types.Identical(mi.X.Type(), errT) {
+							continue
+						}
+						if !c.tagExcludedOnEdge(ev, errTag, phi.Block().Preds[e], phi.Block()) {
+							return false
+						}
+					}
 					return true
 				}
 				// object.Value(x) / CopyRegister(x) keep the tag of x unless x is a register/reference
@@ -103,9 +172,7 @@ func (c *Ctx) errorSpec() TaintSpec {
 	}
 }
 
-var errorStoreExceptions = map[string]string{
-	"eval.(*State).evalBuiltin | arg 3 of object.MakeQuad": "catch(): on the isError edge the value is replaced by the error's message string before MakeQuad; that is the documented purpose of catch",
-}
+var errorStoreExceptions = map[string]string{}
 
 func runC01(c *Ctx, r *Report) {
 	r.Rule("C01.R1", "dispatch totality: every operator token the parser registers for infix expressions is compared against in the evaluator's operator dispatch, every prefix operator token in the prefix dispatch, and every node type the parser can build has an arm in evalInternal's type switch")
